@@ -94,6 +94,14 @@ Theorem C08_send_end_spec : forall r w, 0 <= r <= maxi -> 0 <= w < two64 ->
 Proof. exact Proofs.Caster.send_end_spec. Qed.
 Print Assumptions C08_send_end_spec.
 
+(* the same with the load and the CAS kept apart (wl loaded, wc found by the CAS): Send returns iff the loaded word
+   validates and the word has not changed in between; otherwise it panics and leaves the word as found *)
+Theorem C08_send_end_cas_spec : forall r wl wc, 0 <= r <= maxi -> 0 <= wl < two64 ->
+  (hi wl <= r /\ lo wl = hi wl + maxi /\ wc = wl -> send_end_cas r wl wc = (0, SeRet (hi wl)))
+  /\ (~ (hi wl <= r /\ lo wl = hi wl + maxi /\ wc = wl) -> send_end_cas r wl wc = (wc, SePanic)).
+Proof. exact Proofs.Caster.send_end_cas_spec. Qed.
+Print Assumptions C08_send_end_cas_spec.
+
 (* a whole Send on the word: arm r, d racing deregistrations, return r - d, word 0 *)
 Theorem C08_send_roundtrip : forall r d, 0 < r <= maxi -> 0 <= d <= r ->
   exists w1, send_begin (mkword r r) = (w1, SbArmed r)
